@@ -559,15 +559,16 @@ def c12(driver):
     lets the next evaluation proceed.  Pull request 1 is the subject."""
     import re
     from .faults import user_commits
+    S = driver.spec.get('subject', 1)
 
     def held(state):
         """Reason why PR 1 is on hold in this state, or None."""
-        pr1 = [p for p in state['prs'] if p['id'] == 1][0]
+        pr1 = [p for p in state['prs'] if p['id'] == S][0]
         if pr1['state'] != 'OPEN':
             return 'pull request is ' + pr1['state']
         by_id = {p['id']: p for p in state['prs']}
         for cid, user, text in state['comments']:
-            if cid != 1 or user == ROBOT or not text.startswith('@robot'):
+            if cid != S or user == ROBOT or not text.startswith('@robot'):
                 continue
             words = text.replace('@robot', ' ').split()
             if 'wait' in words:
@@ -587,7 +588,7 @@ def c12(driver):
         if obs.get('status') is None and ev[0] != 'seq':
             return [], {}
         reason = held(pre)
-        pr1 = [p for p in pre['prs'] if p['id'] == 1][0]
+        pr1 = [p for p in pre['prs'] if p['id'] == S][0]
         src = pr1['src']
         h0, h1 = heads(pre), heads(post)
         out, stats = [], {}
@@ -598,7 +599,7 @@ def c12(driver):
             moved_w = [b for b in h1 if b in h0 and h0[b] != h1[b] and
                        wref_parts(b) and wref_parts(b)[1] == src]
             new_q = [b for b in h1 if b not in h0 and
-                     b.startswith('q/w/1/')]
+                     b.startswith('q/w/%d/' % S)]
             new_children = [p['id'] for p in post['prs']
                             if p['author'] == ROBOT and
                             p['id'] not in {q['id'] for q in pre['prs']} and
@@ -614,20 +615,20 @@ def c12(driver):
                         if w.is_ancestor(c, s) and not (
                                 old and w.is_ancestor(c, old)):
                             landed.append(b)
-            already_queued = any(b.startswith('q/w/1/') for b in h0)
+            already_queued = any(b.startswith('q/w/%d/' % S) for b in h0)
             if new_w or moved_w or new_q or new_children or landed:
                 fp = 'held:%s:%s' % (
                     reason.split(' pull request')[0],
                     'merged-from-queue' if landed and already_queued and
                     not (new_w or new_q or new_children) else 'progress')
                 out.append({'property': 'C12', 'fingerprint': fp, 'msg':
-                            'pull request 1 is on hold (%s) but %s created '
+                            'the pull request is on hold (%s) but %s created '
                             'integration branches %s, updated %s, queue '
                             'entries %s, integration PRs %s, landed on %s '
                             '(job status %s)' % (
                                 reason, ev, new_w, moved_w, new_q,
                                 new_children, landed, obs.get('status'))})
-        elif ev == ['eval_pr', 1]:
+        elif ev == ['eval_pr', S]:
             stats['c12_evaluations_free'] = 1
             status = obs.get('status')
             if status in ('AfterPullRequest', 'IncorrectPullRequestNumber'):
@@ -635,8 +636,8 @@ def c12(driver):
                             'no hold is in place but the evaluation ended '
                             '%s' % status})
             if status == 'NothingToDo':
-                pr1p = [p for p in post['prs'] if p['id'] == 1][0]
-                queued = any(b.startswith('q/w/1/') for b in h0)
+                pr1p = [p for p in post['prs'] if p['id'] == S][0]
+                queued = any(b.startswith('q/w/%d/' % S) for b in h0)
                 if pr1p['state'] == 'OPEN' and not queued:
                     out.append({'property': 'C12', 'msg':
                                 'no hold is in place, the pull request is '
